@@ -29,6 +29,15 @@ type GenOptions struct {
 	LatLngPolygons       bool           // allow areas given by explicit loops
 	Holes                bool
 	HostileIDs           bool // draw ID values from the boundary palette
+
+	// Additions for C01/C17/C36. The zero values keep the behaviour (and the
+	// random stream) of the options above unchanged.
+	PointTags       bool    // some features also carry a point-valued plain tag
+	TinyNamespaces  int     // up to this many extra namespaces that hold only 1..2 points (and sometimes one path over them)
+	SpreadTypes     bool    // ring paths (with their areas) and relations may live in the extra Namespaces too
+	ClockwiseP      float64 // probability that the path of a ring is listed clockwise
+	LatLngOnlyAreaP float64 // probability of an extra area given only by explicit loops (no paths)
+	MultiPolygonP   float64 // probability that an area gets a second polygon made of path references
 }
 
 func DefaultGen() GenOptions {
@@ -91,7 +100,19 @@ func (g *Gen) RandomTags(pSome float64) []b6.Tag {
 	for _, i := range g.R.Perm(len(AllKeys))[:n] {
 		tags = append(tags, b6.Tag{Key: AllKeys[i], Value: b6.NewStringExpression(core.Pick(g.R, TagValues))})
 	}
+	if g.O.PointTags && g.R.Chance(0.25) {
+		tags = append(tags, g.PointTag())
+	}
 	return tags
+}
+
+// PointTagKeys are plain keys that carry point values (option PointTags).
+var PointTagKeys = []string{"entrance", "label"}
+
+// PointTag draws a tag whose value is a point on the E7 grid.
+func (g *Gen) PointTag() b6.Tag {
+	ll := g.Place(int64(g.R.Intn(200000))-100000, int64(g.R.Intn(200000))-100000)
+	return b6.Tag{Key: core.Pick(g.R, PointTagKeys), Value: b6.NewPointExpressionFromLatLng(ll)}
 }
 
 func (g *Gen) RandomTag() b6.Tag {
@@ -114,11 +135,19 @@ func (g *Gen) Ring(dx, dy int64, radius float64, k int, clockwise bool) (points 
 		a := phase + 2*math.Pi*float64(i)/float64(k)
 		rr := radius * (0.6 + 0.4*g.R.Float())
 		// longitude grows eastwards, latitude northwards: (cos, sin) in (lng, lat) is counter-clockwise
-		p := &Spec{ID: g.NewID(b6.FeatureTypePoint, b6.NamespaceOSMNode),
+		pns := b6.NamespaceOSMNode
+		if g.O.SpreadTypes {
+			pns = g.ns(pns)
+		}
+		p := &Spec{ID: g.NewID(b6.FeatureTypePoint, pns),
 			LL: g.Place(dx+int64(rr*math.Sin(a)), dy+int64(rr*math.Cos(a)))}
 		points = append(points, p)
 	}
-	path = &Spec{ID: g.NewID(b6.FeatureTypePath, b6.NamespaceOSMWay)}
+	wns := b6.NamespaceOSMWay
+	if g.O.SpreadTypes {
+		wns = g.ns(wns)
+	}
+	path = &Spec{ID: g.NewID(b6.FeatureTypePath, wns)}
 	order := make([]int, k)
 	for i := range order {
 		order[i] = i
@@ -146,12 +175,50 @@ func (g *Gen) World() []*Spec {
 		points = append(points, p)
 	}
 	out = append(out, points...)
+	if g.O.TinyNamespaces > 0 {
+		// namespaces whose point block holds 1..2 points (bucketBitsForCount
+		// regimes), with the top ID bit set half of the time
+		nt := r.Intn(g.O.TinyNamespaces + 1)
+		for i := 0; i < nt; i++ {
+			tns := b6.Namespace(fmt.Sprintf("example.org/tiny/%d", i))
+			var tiny []*Spec
+			for j := r.Range(1, 2); j > 0; j-- {
+				p := g.Point(0.6)
+				p.ID = b6.FeatureID{Type: b6.FeatureTypePoint, Namespace: tns, Value: p.ID.Value}
+				if r.Bool() {
+					p.ID.Value |= 1 << 63
+				}
+				if g.used[p.ID] {
+					continue
+				}
+				g.used[p.ID] = true
+				tiny = append(tiny, p)
+			}
+			out = append(out, tiny...)
+			if len(tiny) > 0 && r.Bool() {
+				// one path over the tiny points (plus an ordinary one), in the tiny or the way namespace
+				wns := b6.NamespaceOSMWay
+				if r.Bool() {
+					wns = tns
+				}
+				path := &Spec{ID: g.NewID(b6.FeatureTypePath, wns), Tags: g.RandomTags(0.8)}
+				for _, p := range tiny {
+					path.Path = append(path.Path, Elem{Ref: p.ID})
+				}
+				path.Path = append(path.Path, Elem{Ref: core.Pick(r, points).ID})
+				paths = append(paths, path)
+				out = append(out, path)
+			}
+			points = append(points, tiny...)
+		}
+	}
 	np := r.Intn(g.O.MaxPaths + 1)
 	for i := 0; i < np && len(points) >= 2; i++ {
 		k := r.Range(2, min(6, len(points)))
 		path := &Spec{ID: g.NewID(b6.FeatureTypePath, g.ns(b6.NamespaceOSMWay)), Tags: g.RandomTags(0.8)}
+		allInline := g.O.InlinePathPoints && r.Chance(0.2)
 		for _, j := range r.Perm(len(points))[:k] {
-			if g.O.InlinePathPoints && r.Chance(0.3) {
+			if allInline || (g.O.InlinePathPoints && r.Chance(0.3)) {
 				path.Path = append(path.Path, Elem{LL: g.Place(int64(r.Intn(200000))-100000, int64(r.Intn(200000))-100000)})
 			} else {
 				path.Path = append(path.Path, Elem{Ref: points[j].ID})
@@ -163,7 +230,7 @@ func (g *Gen) World() []*Spec {
 	nr := r.Intn(g.O.MaxRings + 1)
 	for i := 0; i < nr; i++ {
 		dx, dy := int64(r.Intn(160000))-80000, int64(r.Intn(160000))-80000
-		ps, ring := g.Ring(dx, dy, 3000+float64(r.Intn(3000)), r.Range(3, 7), false)
+		ps, ring := g.Ring(dx, dy, 3000+float64(r.Intn(3000)), r.Range(3, 7), g.O.ClockwiseP > 0 && r.Chance(g.O.ClockwiseP))
 		out = append(out, ps...)
 		points = append(points, ps...)
 		out = append(out, ring)
@@ -180,6 +247,15 @@ func (g *Gen) World() []*Spec {
 			poly.PathIDs = append(poly.PathIDs, hole.ID)
 		}
 		area.Polys = []Poly{poly}
+		if g.O.MultiPolygonP > 0 && r.Chance(g.O.MultiPolygonP) {
+			// a second polygon made of a path reference, away from the first
+			ps2, ring2 := g.Ring(dx-30000, dy+25000, 2500, r.Range(3, 5), false)
+			out = append(out, ps2...)
+			points = append(points, ps2...)
+			out = append(out, ring2)
+			rings = append(rings, ring2)
+			area.Polys = append(area.Polys, Poly{PathIDs: []b6.FeatureID{ring2.ID}})
+		}
 		if g.O.LatLngPolygons && r.Chance(0.3) {
 			// a second polygon given by explicit loops, well away from the first
 			var loop []s2.LatLng
@@ -193,9 +269,40 @@ func (g *Gen) World() []*Spec {
 		areas = append(areas, area)
 		out = append(out, area)
 	}
+	if g.O.LatLngOnlyAreaP > 0 && r.Chance(g.O.LatLngOnlyAreaP) {
+		// an area that has no paths at all: 1..2 polygons of explicit loops, the first possibly with a hole
+		ans := b6.NamespaceOSMWay
+		if g.O.SpreadTypes {
+			ans = g.ns(ans)
+		}
+		area := &Spec{ID: g.NewID(b6.FeatureTypeArea, ans), Tags: g.RandomTags(0.9)}
+		dx, dy := int64(r.Intn(160000))-80000, int64(r.Intn(160000))-80000
+		loop := func(cx, cy int64, radius float64, k int) []s2.LatLng {
+			var l []s2.LatLng
+			for j := 0; j < k; j++ {
+				a := 2 * math.Pi * float64(j) / float64(k)
+				l = append(l, g.Place(cx+int64(radius*math.Sin(a)), cy+int64(radius*math.Cos(a))))
+			}
+			return l
+		}
+		first := Poly{Loops: [][]s2.LatLng{loop(dx, dy, 3000, r.Range(3, 7))}}
+		if g.O.Holes && r.Chance(0.4) {
+			first.Loops = append(first.Loops, loop(dx, dy, 700, r.Range(3, 5)))
+		}
+		area.Polys = []Poly{first}
+		if r.Chance(0.4) {
+			area.Polys = append(area.Polys, Poly{Loops: [][]s2.LatLng{loop(dx+15000, dy-9000, 2000, r.Range(3, 6))}})
+		}
+		areas = append(areas, area)
+		out = append(out, area)
+	}
 	nrel := r.Intn(g.O.MaxRelations + 1)
 	for i := 0; i < nrel; i++ {
-		rel := &Spec{ID: g.NewID(b6.FeatureTypeRelation, b6.NamespaceOSMRelation), Tags: g.RandomTags(0.9)}
+		rns := b6.NamespaceOSMRelation
+		if g.O.SpreadTypes {
+			rns = g.ns(rns)
+		}
+		rel := &Spec{ID: g.NewID(b6.FeatureTypeRelation, rns), Tags: g.RandomTags(0.9)}
 		pool := append(append(append(append([]*Spec{}, points...), paths...), areas...), rels...)
 		pool = append(pool, rings...)
 		k := r.Range(1, 4)
